@@ -16,9 +16,18 @@
 (* indices remaining the same", copy returns an independent tape.          *)
 (*                                                                         *)
 (* A tape is  [ops : Seq(Op), meas : Seq(Op), tr : SUBSET Nat, shots : Nat] *)
-(* an Op is   [k : STRING, v : Seq(Int)]   (k = gate / observable kind,      *)
-(* v = its parameters, abstract integers: the driver maps v to 0.1*v, the   *)
-(* reserved value PiHalf to pi/2).                                         *)
+(* an Op is   [k : STRING, v : Seq(Int), sub : Seq(Op)]   (k = gate /        *)
+(* observable kind, v = its OWN parameters, abstract integers: the driver  *)
+(* maps v to 0.1*v, the reserved value PiHalf to pi/2; sub = its operands). *)
+(* Operators nest: "Ham" (linear combination: v = one coefficient per term, *)
+(* sub = the terms), "SProd" (v = <<scalar>>, sub = <<base>>), "Sum" /      *)
+(* "Prod" (v = <<>>, sub = operands), "Adjoint" (sub = <<base>>); every     *)
+(* operand may itself carry any number of parameters.  The parameters of    *)
+(* an operator, "in order of appearance", are (Paths): for a linear        *)
+(* combination, term by term, the coefficient followed by the parameters   *)
+(* of the term; for every other operator its own parameters followed by    *)
+(* the parameters of its operands in order.  A parameter is addressed by   *)
+(* its PATH in the operator tree, never by offset arithmetic.              *)
 (* One action per public call: Construct (Init), Copy, CopyTr, CopyShots,  *)
 (* CopyOps, Bind, BindCur, SetTrainable, Expand.  Tapes are never changed  *)
 (* after creation except by SetTrainable on the addressed tape.            *)
@@ -39,8 +48,31 @@ RECURSIVE SortedSeq(_)
 SortedSeq(S) == IF S = {} THEN <<>> ELSE LET m == CHOOSE x \in S : \A y \in S : x <= y IN <<m>> \o SortedSeq(S \ {m})
 SeqSet(s) == {s[i] : i \in 1..Len(s)}
 RangeSeq(n) == [i \in 1..n |-> i - 1]                        \* <<0, 1, ..., n-1>>
+
+\* ------------------------------------------------------------------ parameters of one (possibly nested) operator
+\* a path is <<0, j>> (own parameter j) or <<i>> \o path (descend into operand i)
+RECURSIVE Paths(_), PathsFrom(_, _)
+PathsFrom(op, i) == IF i > Len(op.sub) THEN <<>>
+                    ELSE LET ps == Paths(op.sub[i]) IN
+                         (IF op.k = "Ham" THEN << <<0, i>> >> ELSE <<>>) \o [j \in 1..Len(ps) |-> <<i>> \o ps[j]] \o PathsFrom(op, i + 1)
+Paths(op) == (IF op.k = "Ham" THEN <<>> ELSE [j \in 1..Len(op.v) |-> <<0, j>>]) \o PathsFrom(op, 1)
+RECURSIVE Get(_, _), Put(_, _, _)
+Get(op, p) == IF p[1] = 0 THEN op.v[p[2]] ELSE Get(op.sub[p[1]], Tail(p))
+Put(op, p, x) == IF p[1] = 0 THEN [op EXCEPT !.v[p[2]] = x] ELSE [op EXCEPT !.sub[p[1]] = Put(@, Tail(p), x)]
+\* op.data: the parameters of the operator in order of appearance
+Data(op) == LET ps == TLCEval(Paths(op)) IN TLCEval([j \in 1..Len(ps) |-> Get(op, ps[j])])
+RECURSIVE Shape(_)
+Shape(op) == [k |-> op.k, n |-> Len(op.v), sub |-> [i \in 1..Len(op.sub) |-> Shape(op.sub[i])]]
+WellFormed(op) == /\ (op.k = "Ham" => Len(op.v) = Len(op.sub)) /\ (op.k = "SProd" => Len(op.v) = 1 /\ Len(op.sub) = 1)
+                  /\ (op.k \in {"Sum", "Prod", "Adjoint"} => op.v = <<>> /\ Len(op.sub) >= 1)
+Nested(op) == op.sub # <<>>
+\* an operand that carries more than one parameter and is followed by further parameters of the same operator
+RECURSIVE DeepLayout(_)
+DeepLayout(op) == \/ \E i, j \in 1..Len(op.sub) : i < j /\ Len(Data(op.sub[i])) >= 2 /\ (op.k = "Ham" \/ Len(Data(op.sub[j])) >= 1)
+                  \/ \E i \in 1..Len(op.sub) : DeepLayout(op.sub[i])
+
 RECURSIVE FlatFrom(_, _)
-FlatFrom(c, i) == IF i > Len(c) THEN <<>> ELSE c[i].v \o FlatFrom(c, i + 1)
+FlatFrom(c, i) == IF i > Len(c) THEN <<>> ELSE Data(c[i]) \o FlatFrom(c, i + 1)
 Flat(c) == FlatFrom(c, 1)
 
 \* ------------------------------------------------------------------ the three views
@@ -48,10 +80,10 @@ Circuit(t) == t.ops \o t.meas
 \* par_info: for every operation, then every measured observable, one entry per parameter: <<op_idx, p_idx>> (0-based)
 RECURSIVE ParInfoFrom(_, _)
 ParInfoFrom(c, i) == IF i > Len(c) THEN <<>>
-                     ELSE [p \in 1..Len(c[i].v) |-> <<i - 1, p - 1>>] \o ParInfoFrom(c, i + 1)
+                     ELSE [p \in 1..Len(Data(c[i])) |-> <<i - 1, p - 1>>] \o ParInfoFrom(c, i + 1)
 ParInfo(t) == TLCEval(ParInfoFrom(Circuit(t), 1))
 NumPar(t) == Len(ParInfo(t))
-ValAt(t, a) == Circuit(t)[a[1] + 1].v[a[2] + 1]
+ValAt(t, a) == Data(Circuit(t)[a[1] + 1])[a[2] + 1]
 \* get_parameters(trainable_only=False): in order of appearance (AllParamsByInfo: the same read through par_info)
 AllParams(t) == TLCEval(Flat(Circuit(t)))
 AllParamsByInfo(t) == LET pi == ParInfo(t) IN TLCEval([i \in 1..Len(pi) |-> ValAt(t, pi[i])])
@@ -60,27 +92,39 @@ TrainParams(t) == LET s == SortedSeq(t.tr) ap == AllParams(t) IN TLCEval([k \in 
 \* get_parameters(operations_only=True): trainable parameters of operations only
 OpsTrainParams(t) == LET s == SortedSeq({i \in t.tr : i < Len(Flat(t.ops))}) ap == AllParams(t) IN TLCEval([k \in 1..Len(s) |-> ap[s[k] + 1]])
 
-\* bind_new_parameters(vals, idxs): idxs a sorted sequence of distinct flat indices, vals of the same length
+\* bind_new_parameters(vals, idxs): idxs a sorted sequence of distinct flat indices, vals of the same length:
+\* flat index -> par_info -> (operator, position in the operator's parameters) -> path -> the value at that path is replaced
+RECURSIVE BindFrom(_, _, _, _, _)
+BindFrom(c, pi, vals, idxs, k) ==
+  IF k > Len(idxs) THEN c
+  ELSE LET a == pi[idxs[k] + 1]
+           ci == a[1] + 1
+           op2 == Put(c[ci], Paths(c[ci])[a[2] + 1], vals[k])
+       IN BindFrom([c EXCEPT ![ci] = op2], pi, vals, idxs, k + 1)
 BindF(t, vals, idxs) ==
-  LET pi == ParInfo(t)
-      c == Circuit(t)
-      Hit(ci, pj) == {k \in 1..Len(idxs) : pi[idxs[k] + 1] = <<ci - 1, pj - 1>>}
-      c2 == [ci \in 1..Len(c) |-> [k |-> c[ci].k,
-                                   v |-> [pj \in 1..Len(c[ci].v) |-> IF Hit(ci, pj) # {} THEN vals[CHOOSE k \in Hit(ci, pj) : TRUE]
-                                                                       ELSE c[ci].v[pj]]]]
+  LET c2 == TLCEval(BindFrom(Circuit(t), ParInfo(t), vals, idxs, 1))
   IN TLCEval([ops |-> SubSeq(c2, 1, Len(t.ops)), meas |-> SubSeq(c2, Len(t.ops) + 1, Len(c2)), tr |-> t.tr, shots |-> t.shots])
 
 \* ------------------------------------------------------------------ expansion (documented decompositions)
-Op1(k, a) == [k |-> k, v |-> <<a>>]
+Leaf(k, v) == [k |-> k, v |-> v, sub |-> <<>>]
+Op1(k, a) == Leaf(k, <<a>>)
+Rev(s) == [i \in 1..Len(s) |-> s[Len(s) + 1 - i]]
+\* a product applies its operands right to left; the adjoint of a sequence is the reversed sequence of adjoints,
+\* the adjoint of a rotation is the rotation by the negated angle
 Decomp(op) ==
   CASE op.k = "Rot" -> <<Op1("RZ", op.v[1]), Op1("RY", op.v[2]), Op1("RZ", op.v[3])>>
-    [] op.k = "U2"  -> <<[k |-> "Rot", v |-> <<op.v[2], PiHalf, -op.v[2]>>], Op1("PhaseShift", op.v[2]), Op1("PhaseShift", op.v[1])>>
-    [] op.k = "U3"  -> <<[k |-> "Rot", v |-> <<op.v[3], op.v[1], -op.v[3]>>], Op1("PhaseShift", op.v[3]), Op1("PhaseShift", op.v[2])>>
-    [] op.k = "IsingXX" -> <<[k |-> "CNOT", v |-> <<>>], Op1("RX", op.v[1]), [k |-> "CNOT", v |-> <<>>]>>
+    [] op.k = "U2"  -> <<Leaf("Rot", <<op.v[2], PiHalf, -op.v[2]>>), Op1("PhaseShift", op.v[2]), Op1("PhaseShift", op.v[1])>>
+    [] op.k = "U3"  -> <<Leaf("Rot", <<op.v[3], op.v[1], -op.v[3]>>), Op1("PhaseShift", op.v[3]), Op1("PhaseShift", op.v[2])>>
+    [] op.k = "IsingXX" -> <<Leaf("CNOT", <<>>), Op1("RX", op.v[1]), Leaf("CNOT", <<>>)>>
+    [] op.k = "Prod" -> Rev(op.sub)
+    [] op.k = "Adjoint" /\ op.sub[1].k \in {"RX", "RY", "RZ", "PhaseShift"} -> <<Op1(op.sub[1].k, -op.sub[1].v[1])>>
+    [] op.k = "Adjoint" /\ op.sub[1].k = "CNOT" -> <<op.sub[1]>>
+    [] op.k = "Adjoint" /\ op.sub[1].k = "Rot" ->
+         <<Op1("RZ", -op.sub[1].v[3]), Op1("RY", -op.sub[1].v[2]), Op1("RZ", -op.sub[1].v[1])>>
     [] OTHER -> <<op>>
 RECURSIVE ExpandOps(_)
 ExpandOps(ops) == IF ops = <<>> THEN <<>>
-                  ELSE (IF Head(ops).k \in Prim THEN <<Head(ops)>> ELSE ExpandOps(Decomp(Head(ops)))) \o ExpandOps(Tail(ops))
+                  ELSE (IF Head(ops).k \in Prim \/ Decomp(Head(ops)) = <<Head(ops)>> THEN <<Head(ops)>> ELSE ExpandOps(Decomp(Head(ops)))) \o ExpandOps(Tail(ops))
 \* the parameters of t are told apart by their absolute value (needed to trace a parameter through an expansion)
 DistinctAbs(t) == LET ap == AllParams(t) IN /\ \A i, j \in 1..Len(ap) : i # j => Abs(ap[i]) # Abs(ap[j])
                                             /\ \A i \in 1..Len(ap) : Abs(ap[i]) # PiHalf
@@ -152,11 +196,12 @@ Next == /\ Len(hist) <= MaxSteps
 \* ------------------------------------------------------------------ invariants decided by TLC on the model
 \* (1) the three views agree on every tape of every reachable heap
 TapeOK(t) ==
+  /\ \A i \in 1..Len(Circuit(t)) : WellFormed(Circuit(t)[i])
   /\ t.tr \subseteq 0..NumPar(t) - 1
   /\ AllParamsByInfo(t) = AllParams(t)
   /\ Len(TrainParams(t)) = Cardinality(t.tr)
   /\ \A k \in 1..Len(TrainParams(t)) : TrainParams(t)[k] = ValAt(t, ParInfo(t)[SortedSeq(t.tr)[k] + 1])
-  /\ \A i \in 1..NumPar(t) : LET a == ParInfo(t)[i] IN a[1] < Len(Circuit(t)) /\ a[2] < Len(Circuit(t)[a[1] + 1].v)
+  /\ \A i \in 1..NumPar(t) : LET a == ParInfo(t)[i] IN a[1] < Len(Circuit(t)) /\ a[2] < Len(Data(Circuit(t)[a[1] + 1]))
   /\ \A i, j \in 1..NumPar(t) : i < j => (ParInfo(t)[i][1] < ParInfo(t)[j][1] \/ (ParInfo(t)[i][1] = ParInfo(t)[j][1] /\ ParInfo(t)[i][2] < ParInfo(t)[j][2]))
 Consistent == \A i \in Ids : TapeOK(heap[i])
 \* (2) binding the current parameters reproduces the tape
@@ -166,7 +211,7 @@ BindCurrentIdentity == \A i \in Ids : LET t == heap[i] IN
 \* (3) bind changes exactly the addressed slots (values) and nothing else (kinds, arities, trainable set, shots)
 Last == hist[Len(hist)]
 SameShape(x, y) == /\ Len(x.ops) = Len(y.ops) /\ Len(x.meas) = Len(y.meas)
-                   /\ \A i \in 1..Len(Circuit(x)) : Circuit(x)[i].k = Circuit(y)[i].k /\ Len(Circuit(x)[i].v) = Len(Circuit(y)[i].v)
+                   /\ \A i \in 1..Len(Circuit(x)) : Shape(Circuit(x)[i]) = Shape(Circuit(y)[i])
 BindExact == Last.a = "bind" =>
   LET old == heap[Last.t] new == heap[Last.new] IN
   /\ SameShape(old, new) /\ new.tr = old.tr /\ new.shots = old.shots
